@@ -283,7 +283,7 @@ PROPS = {
         engine="cluster-simulator",
     ),
     "C05": dict(
-        lean_modules=['Swim.Lemmas.Merge', 'Swim.Props.C02', 'Swim.Props.C09', 'Swim.Props.C05', 'Swim.Model.Cluster', 'Swim.Props.Cluster', 'Swim.Props.ClusterG', 'Swim.Props.C02Cluster', 'Swim.Props.C05Cluster', 'Swim.Props.Projection', 'Swim.Props.C04Cluster', 'Swim.Props.C05Recover'],
+        lean_modules=['Swim.Lemmas.Merge', 'Swim.Props.C02', 'Swim.Props.C09', 'Swim.Props.C05', 'Swim.Model.Cluster', 'Swim.Props.Cluster', 'Swim.Props.ClusterG', 'Swim.Props.C02Cluster', 'Swim.Props.C05Cluster', 'Swim.Props.Projection', 'Swim.Props.C04Cluster', 'Swim.Props.C05Recover', 'Swim.Props.C09Cluster', 'Swim.Props.C05Converge'],
         tests="^TestC05(Cluster)?$",
         timeout_quick=400,
         shards_quick=4,
@@ -292,7 +292,7 @@ PROPS = {
                                   "the simulator transport (non-blocking delivery, latency/loss/duplication/partition injection, net.Pipe streams)",
                                   "math/rand target selection is seeded but goroutine scheduling is not fully deterministic: the recorded outcome is the replay artifact"],
         assumptions=["goroutine scheduling delays and real network timing are not modelled (virtual time)", "cluster-level theorems: restart-free histories of the cluster model (network = monotone pool of claims delivered in any order/multiplicity, push/pull entry-wise, timing and target selection free); fewer than 2^32 steps"],
-        level_text="Proof (partial): an accusation is overridden wherever the accused's newer alive claim is delivered; the accused always produces such a claim; a state exchange only moves views forward. Cluster level: in every history of the cluster model every accusation held by anybody is bounded by the accused member's own incarnation (C02_cluster_bounded), the running accused refutes it when it hears of it (C02_cluster_defends), and any newer alive claim in flight - gossip or state entry - clears it wherever it is delivered, the address condition being an invariant (C05_cluster_override, C05_cluster_state_override); C05_cluster_recoverable: from every reachable state, for every accusation anybody holds against a running member, a continuation of at most three steps (state exchange, refutation, delivery) makes the holder list the member alive again (Lean, induction over cluster histories). Convergence itself (that the deliveries happen) is classified by the simulator on every history.",
+        level_text="Proof (partial): an accusation is overridden wherever the accused's newer alive claim is delivered; the accused always produces such a claim; a state exchange only moves views forward. Cluster level: in every history of the cluster model every accusation held by anybody is bounded by the accused member's own incarnation (C02_cluster_bounded), the running accused refutes it when it hears of it (C02_cluster_defends), and any newer alive claim in flight - gossip or state entry - clears it wherever it is delivered, the address condition being an invariant (C05_cluster_override, C05_cluster_state_override); C05_cluster_recoverable: from every reachable state, for every accusation anybody holds against a running member, a continuation of at most three steps (state exchange, refutation, delivery) makes the holder list the member alive again; C05_cluster_quiescent_agrees: in any reachable state in which no state exchange between two nodes changes the receiver any more, each holds every running member alive at the member's own incarnation and metadata - the only fixed points of push/pull are converged views, so a split can persist only between nodes that no longer exchange state (Lean, induction over cluster histories). Convergence itself (that the deliveries happen) is classified by the simulator on every history.",
         level_note='Partial: settling time and convergence depend on random target selection. Known finding C05-stable-split (protocol-level, no re-join mechanism); every other non-converged final state is reported.',
         engine="cluster-simulator",
     ),
